@@ -24,7 +24,7 @@ from c07 import build, NN  # noqa: F401
 THEOREMS = ['C08_uniform', 'C08_zero', 'C08_volume', 'C08_uncorrected_overcounts', 'C08_nested', 'C08_poolMerge',
             'C08_accept', 'C08_radial', 'C08_ellVolume', 'C08_unitBall']
 TIE_THEOREMS = ['C08_tie_formulas', 'C08_tie_union_loop', 'C08_tie_nautilus_loop', 'C08_tie_ellipsoid_logv']
-MODULE = [('NautilusVerif.Properties.C08', THEOREMS), ('NautilusVerif.Properties.C08Tie', TIE_THEOREMS)]
+MODULE = [('NautilusVerif.Properties.C08', THEOREMS), ('NautilusVerif.Properties.C08Buf', None), ('NautilusVerif.Properties.C08Tie', TIE_THEOREMS)]
 FILES = ['nautilus/bounds/union.py', 'nautilus/bounds/nautilus.py', 'nautilus/bounds/basic.py']
 ALPHA = 1e-9
 
@@ -192,7 +192,98 @@ def cases(tier, seed):
     return C
 
 
+BUF_THEOREMS = ['C08_buf_exact', 'C08_buf_exact_init', 'C08_buf_merge', 'C08_buf_handout', 'C08_buf_fifo', 'C07_buf_frame',
+                'C08_buf_fraction']
+
+
+def buf_cases(tier, seed):
+    C = []
+    for k, (nets, periodic, cl, d) in enumerate([(0, None, 'curved', 2), (1, None, 'curved', 2), (0, [0], 'wrapped', 2), (1, [0], 'wrapped', 2),
+                                                  (0, None, 'face', 3), (1, None, 'two', 2), (0, [0, 1], 'wrapped', 3), (0, None, 'shell', 2)]):
+        C.append(dict(cls='Nautilus', d=d, nets=nets, periodic=periodic, cloud=cl, split=True, n=260, seed=9100 + 53 * seed + k,
+                      pool_size=[2, 3, 5][k % 3]))
+    if tier == 'thorough':
+        C += [dict(c, seed=c['seed'] + 1000 * r, pool_size=[3, 4, 2][(k + r) % 3]) for r in range(1, 4) for k, c in enumerate(list(C))]
+    return C
+
+
+def buf_script(case):
+    """the calls replayed through the model: small and large requests, requests that the cache already covers, internal filling
+    (`return_points=False`), resets, the pool branch before and after serial use — all sizes derived from the case seed"""
+    rng = np.random.default_rng(case['seed'] + 5)
+    S = [('reset',), ('sample', 100, True, False), ('sample', int(rng.integers(1500, 4000)), True, False), ('sample', 50, False, False),
+         ('sample', int(rng.integers(1, 40)), True, False), ('sample', int(rng.integers(9000, 16000)), True, True),
+         ('sample', int(rng.integers(100, 900)), True, False), ('reset',), ('sample', int(rng.integers(9000, 14000)), True, True),
+         ('sample', 40, False, True), ('sample', int(rng.integers(2000, 6000)), True, False), ('sample', int(rng.integers(11000, 13000)), False, True),
+         ('sample', 1000, True, False)]
+    return S
+
+
+def buf_case(case):
+    import warnings
+    warnings.filterwarnings('ignore')
+    os.environ.setdefault('OMP_NUM_THREADS', '1')
+    import bufrec
+    try:
+        b, _, _ = build(case)
+    except Exception as e:
+        return {'case': case, 'skipped': 'construction raised %s: %s' % (type(e).__name__, str(e)[:100])}
+    rec = bufrec.BufRecorder(b)
+    pool = bufrec.CapturePool(case['pool_size'])
+    script = buf_script(case)
+    try:
+        for st in script:
+            if st[0] == 'reset':
+                rec.reset()
+            else:
+                rec.sample(st[1], ret=st[2], pool=pool if st[3] else None)
+    except Exception as e:
+        import traceback
+        return {'case': case, 'crash': '%s: %s' % (type(e).__name__, str(e)[:160]), 'trace': traceback.format_exc()[-1200:],
+                'fails': rec.fails, 'notes': rec.notes, 'req': rec.request(), 'ops': rec.ops, 'states': rec.states}
+    return {'case': case, 'fails': rec.fails, 'notes': rec.notes, 'req': rec.request(), 'ops': [o[:60] for o in rec.ops], 'states': rec.states,
+            'n_ops': len(rec.ops), 'n_pool_ops': sum(1 for o in rec.ops if ' pool ' in o[:40])}
+
+
+def buf_stage(chk):
+    """correspondence NautilusBound.sample / Union.sample vs Model/SampleBuf.lean, and the model's invariant evaluated on the
+    real objects"""
+    import bufrec
+    res = common.pool_map(buf_case, buf_cases(chk.tier, chk.seed))
+    live = [r for r in res if 'req' in r]
+    replies = common.run_driver([r['req'] for r in live]) if live else []
+    n_ops = 0
+    for r, rep in zip(live, replies):
+        r['dis'] = bufrec.compare(types_view(r), rep)
+    for r in res:
+        spec = {'buf_case': r['case']}
+        if r.get('skipped'):
+            chk.notes.append('buf: skipped: ' + r['skipped'])
+            continue
+        for key, what, d in r.get('fails', []):
+            chk.fail(key + '@Nautilus', what, {'input': spec, 'detail': d})
+        if 'crash' in r:
+            chk.fail('sample-raises:' + r['crash'].split(':')[0], 'sampling a NautilusBound raised: ' + r['crash'], {'input': spec, 'trace': r['trace']})
+        if r.get('dis'):
+            chk.correspondence_broken('NautilusBound.sample vs SampleBuf model (seed %d)' % r['case']['seed'],
+                                      {'disagreements': r['dis'][:2], 'notes': r.get('notes', [])[:4], 'case': r['case']},
+                                      accounted=bool(r.get('fails')) or 'crash' in r)
+        n_ops += r.get('n_ops', 0)
+    chk.extra['buf'] = {'cases': len(res), 'operations_replayed': n_ops, 'pool_operations': sum(r.get('n_pool_ops', 0) for r in res),
+                        'disagreements': sum(len(r.get('dis', [])) for r in res)}
+    chk.count(n_ops, sum(r.get('n_pool_ops', 0) for r in res))
+    chk.cov['disagreements_checked'] += sum(len(r.get('dis', [])) for r in res)
+    chk.trusted += ['harness/bufrec.py (instance-level hooks on the outer union, its first member and the phase shift)']
+
+
+class types_view:
+    def __init__(self, r):
+        self.ops, self.states = r['ops'], r['states']
+
+
 def run(chk):
+    global MODULE
+    MODULE = [(m, BUF_THEOREMS if ths is None else ths) for m, ths in MODULE]
     text, notes = gen_c08.generate(common.REPO)
     chk.extra['source_digest'] = common.source_digest(FILES)
     chk.extra['translator'] = notes
@@ -201,6 +292,7 @@ def run(chk):
     chk.prove(MODULE, None, {'NautilusVerif/Generated/C08.lean': text, 'NautilusVerif/Generated/C07.lean': text7})
     if chk.tier == 'thorough':
         chk.leanchecker([m for m, _ in MODULE])
+    buf_stage(chk)
     C = cases(chk.tier, chk.seed)
     plain = [c for c in C if not c.get('pool')]
     pooled = [c for c in C if c.get('pool')]
@@ -244,6 +336,11 @@ def run(chk):
 
 
 def replay(doc):
+    if 'buf_case' in doc['input']:
+        r = buf_case(doc['input']['buf_case'])
+        for f in r.get('fails', []):
+            print(f[0], '-', f[1])
+        return bool(r.get('fails')) or 'crash' in r
     r = check_case(doc['input'])
     zs = [abs(t[1]) for t in r['tests']]
     print('largest |z| =', max(zs) if zs else None, 'over', len(zs), 'tests')
